@@ -3,13 +3,18 @@
    ./h gen C19 -seed 1 -tier quick -out o && python3 c19_exported.py o/ops.txt Params.lean"""
 import sys, re
 ops, lean = sys.argv[1], sys.argv[2]
+# sets whose modulus is above the table (findings); `:ephemeral` rows are informational only
+ABOVE = {"bootstrapping.N16QP1793H32768H32:bootstrapping",
+         "bootstrapping.N15QP768H192H32:bootstrapping-with-LogN15",
+         "bootstrapping.N15QP880H16384H32:bootstrapping-with-LogN15"}
 rows = []
 for line in open(ops):
     if not line.startswith("C19 exported "):
         continue
     kv = dict(t.split("=", 1) for t in line.split()[2:])
     vec = lambda s: "[]" if s == "-" else "[" + ", ".join(s.split(",")) + "]"
-    rows.append('  { name := "%s", logN := %s, xsH := %s,\n    q := %s,\n    p := %s }' % (kv["name"], kv["logN"], kv["xsH"], vec(kv["Q"]), vec(kv["P"])))
+    b = lambda x: "true" if x else "false"
+    rows.append('  { name := "%s", logN := %s, xsH := %s, checked := %s, above := %s,\n    q := %s,\n    p := %s }' % (kv["name"], kv["logN"], kv["xsH"], b(not kv["name"].endswith(":ephemeral")), b(kv["name"] in ABOVE), vec(kv["Q"]), vec(kv["P"])))
 body = "def exportedSets : List ExportedSet := [\n" + ",\n".join(rows) + "\n]\n"
 s = open(lean).read()
 a, b = "-- BEGIN GENERATED exportedSets\n", "-- END GENERATED exportedSets\n"
